@@ -38,4 +38,13 @@ def plainGo : Bytes → Bool → Bool → Bool
 def plainText (text : Bytes) : Bool :=
   text.all (· != 13) && plainGo (text.dropWhile isSpace) false false
 
+/-- every CR is the first half of a CR LF -/
+def crOk : Bytes → Bool
+  | [] => true
+  | [c] => c != 13
+  | c :: d :: r => if c == 13 then d == 10 && crOk r else crOk (d :: r)
+
+/-- the domain of `value_eq_git_crlf`: CRs only as CR LF, and plain once those are read as LF -/
+def plainTextCrlf (text : Bytes) : Bool := crOk text && plainText (foldCrlf text)
+
 end GixModel.C27
